@@ -21,7 +21,10 @@ Inductive case :=
 | CSurvey (peers early late : N) (handled : bool)
 (* the payload of a survey request from a peer handed to the storage (0) / presence (1) handler: class as
    above, bytes allocated *)
-| CSurveyReq (which : N) (payload : bytes) (class : N) (alloc : N).
+| CSurveyReq (which : N) (payload : bytes) (class : N) (alloc : N)
+(* a broker configured with limit.messageSize = configured gets a packet announcing 256 MiB: was the
+   connection closed, class, bytes allocated *)
+| CLimit (configured : Z) (closed : bool) (class : N) (alloc : N).
 
 Definition msg_eqb (a b : msg) : bool :=
   bytes_eqb (m_id a) (m_id b) && bytes_eqb (m_chan a) (m_chan b) && bytes_eqb (m_payload a) (m_payload b)
@@ -41,6 +44,7 @@ Definition check (c : case) : N :=
   match c with
   | CStall gave_up served => bit (gave_up && served) 2
   | CSurvey _ _ _ handled => bit handled 2
+  | CLimit _ closed class alloc => bit (closed && (class <? 2)) 2 |+| bit (alloc <=? 16777216) 4
   | CSurveyReq _ payload class alloc => bit (class <? 2) 2 |+| bit (alloc <=? 256 * len payload + 1048576) 4
   | CStream s max served ending alloc =>
     let '(ms, e) := process (S (length s)) s max [] in
